@@ -332,6 +332,10 @@ func (c *xsyncMap) GetAndDelete(k string) (interface{}, bool) {
 	if ec != nil {
 		ec(k, i.v)
 	}
+	if i.expired() {
+		// removed an expired item that was not cleaned up yet: not found
+		return nil, false
+	}
 	return i.v, true
 }
 
